@@ -992,7 +992,7 @@ short_read:
 	}
 	/* CBCH Mobile Allocation */
 	if (payload_len >= 1 && data[0] == GSM48_IE_CBCH_MOB_AL) {
-		if (payload_len < 1 || payload_len < 2 + data[1])
+		if (payload_len < 2 || payload_len < 2 + data[1])
 			goto short_read;
 		if (!s->si1) {
 			LOGP(DRR, LOGL_NOTICE, "Ignoring CBCH allocation of "
